@@ -71,3 +71,24 @@ ledger_prop('C16', ['C16_tx_ids_increase', 'C16_log_ids_increase', 'C16_ids_uniq
             'Coq proof (invariant: stored ids strictly increasing in commit order and below the sequence) + differential run',
             'Unbounded theorem for sequential executions: transaction ids and log ids are unique and strictly increase in commit order, gaps only from rolled-back draws. Tie: model = real stack incl. ids after failures and dry runs.',
             'Sequential part only is proved; commit order vs id order under concurrency is examined by the schedule harness.')
+
+ledger_prop('C03', ['C03_post_commit_is_state_after', 'C03_pre_commit_is_state_before', 'C03_moves_are_running_volumes', 'C03_frozen'],
+            'Coq proof (the reverse unwinding loop of CommitTransaction equals the forward running volumes, by induction from the right; frame lemma for later steps) + differential run',
+            'Unbounded theorems: postCommitVolumes = table right after the commit on exactly the touched pairs; pre = post − own postings = table right before; the recorded moves (source side then destination side per posting) carry the forward running volumes for ANY postings list incl. repeated accounts and source = destination; stored values are frozen along every later step. Tie: model = real stack (raw moves rows and transaction reads compared after every operation); monitor recomputes running volumes from returned results.',
+            'C03_moves_are_running_volumes is about the loop of storage/ledger/transactions.go; the aliasing of RETURNING values into the caller-owned big.Ints is exercised for real.')
+ledger_prop('C08', ['C08_commit_appends_one_log', 'C08_nothing_else_appends', 'C08_log_ids_increase', 'C08_replay_transactions', 'C08_replay_volumes'],
+            'Coq proof (journal invariant: projection of the transactions table = replay of the stored log payloads; volumes = fold of replayed postings) + differential run + independent Go replay of the implementation\'s exported logs',
+            'Unbounded theorems: exactly one log per committed write and none otherwise; log ids strictly increase; replaying the payloads (a fold that never reads the tables) reproduces transactions (ids, postings, metadata, timestamps, references, revert marks) and volumes. Tie: model = real stack; monitor replays the logs the implementation lists and compares with its reads, accounts and account metadata included.',
+            'Account metadata/first-usage replay is checked by the monitor only (not yet a theorem). Concurrent id order: C16 notes.')
+ledger_prop('C15', ['C15_shape', 'C15_reverse_postings', 'C15_once', 'C15_neutral'],
+            'Coq proof (shape of the revert from the step function; single revert via the reverted mark; algebraic neutrality of postings ++ reversed postings) + differential run',
+            'Unbounded theorems (sequential): a successful revert of T creates one transaction with T\'s postings swapped in reverse order, the revert mark, timestamp T.ts or the revert time; a second revert fails with already-reverted; T plus its revert leave every balance unchanged. Tie: model = real stack; monitor checks shape/mark/timestamp/once on the implementation.',
+            'Concurrent reverts (row lock + re-evaluation of reverted_at IS NULL) are covered by the schedule harness. The nil-map panic of a non-forced revert (suspect S-15) is modelled as an explicit Panic outcome.')
+ledger_prop('C17', ['C17_current_tx_metadata', 'C17_merge_last_write_wins', 'C17_delete_removes', 'C17_account_upsert', 'C17_tx_history_revision'],
+            'Coq proof (current transaction metadata = replay of saves/deletes in log order; merge/delete algebra; history revision per rewrite) + differential run incl. raw history tables + metadata monitor',
+            'Unbounded theorems: current transaction metadata equals creation metadata with saves (last write wins per key) and deletes applied in commit order; account upsert merges over stored metadata; with the history feature every row rewrite appends the new metadata as next revision dated updated_at. Tie: model = real stack on current metadata AND both raw history tables under 5 feature sets.',
+            'The point-in-time read queries (as-of-t selection, DISABLED => current) are compared by the PIT read tie (C05 harness); chart default metadata is covered under C29.')
+ledger_prop('C18', ['C18_partial_persistence', 'C18_partial_involved_listed', 'C18_partial_metadata_creates', 'C18_refuted_revert'],
+            'Coq proof of the partial statement + refutation witness of the full statement (vm_compute) replayed on the real code + differential run',
+            'Proved: accounts persist with constant address/insertion date, first usage never increases, committed creates list every involved account with first usage <= effective timestamp, metadata creates the account. REFUTED (witness C18_refuted_revert, known finding): a revert transaction whose effective timestamp precedes an account\'s first usage does not lower it. Tie: model = real stack; monitor computes earliest effective event per account and tags the known revert case.',
+            'The full "earliest among all events" statement is false of the unchanged code (known_findings.json: KF-C18-revert-before-first-usage); any other first-usage discrepancy is reported as a violation.')
